@@ -46,7 +46,10 @@ Configs ==
      <<Use("pmFromDataset", "phrases", "abc def")>>,
      \* one schema file name under two roots, two different schemas of the same size
      <<Use("validateSchema", "schemas/item.json", "required-id")>>,
-     <<Use("validateSchema", "schemas/item.json", "required-sn")>> >>
+     <<Use("validateSchema", "schemas/item.json", "required-sn")>>,
+     \* one regex key text on a case-sensitive and on a case-insensitive collection: the artefact differs (the second is folded)
+     <<Use("varRx", "^Ab", "^Ab")>>,
+     <<Use("varRx", "^Ab", "^ab")>> >>
 
 Key(u) == IF KeyDesign = "raw" THEN u.text ELSE <<u.site, u.content>>
 Artefact(u) == [kind |-> Kind(u.site), site |-> u.site, content |-> u.content]
